@@ -915,6 +915,8 @@ package ircserver
 //@ pred sessRepr(p *pb.Snapshot_Session, s *Session) = p.Id.Id == s.Id.Id && p.Id.Reply == s.Id.Reply && p.Auth == s.auth && (s.loggedIn <==> (p.LoggedIn == 1 || (p.LoggedIn == 0 && p.Nick != "" && p.Username != ""))) && p.Nick == s.Nick && p.Username == s.Username && p.Realname == s.Realname && s.LastActivity == tsTime(p.LastActivity) && s.LastNonPing == ite(tsTime(p.LastNonPing).IsZero(), tsTime(p.LastActivity), tsTime(p.LastNonPing)) && s.LastSolvedCaptcha == tsTime(p.LastSolvedCaptcha) && p.Operator == s.Operator && p.AwayMsg == s.AwayMsg && s.Created == ite(p.Created > 0, p.Created, p.Id.Id) && p.ThrottlingExponent == s.throttlingExponent && p.Svid == s.svid && p.Pass == s.Pass && p.Server == s.Server && p.LastClientMessageId == s.lastClientMessageId && p.IrcPrefix.Name == s.ircPrefix.Name && p.IrcPrefix.User == s.ircPrefix.User && p.IrcPrefix.Host == s.ircPrefix.Host && p.RemoteAddr == s.RemoteAddr
 // User modes: the letters that are set are exactly the first bytes of the strings in the wire form.
 //@ pred modesRepr(p *pb.Snapshot_Session, s *Session) = forall m int :: 0 <= m && m < 122 ==> (s.modes[m] <==> (exists j int :: 0 <= j && j < len(p.Modes) && p.Modes[j][0] == m))
+// Channel memberships and invitations: the wire form lists names, the state keeps the lowered names as a set.
+//@ pred chansRepr(p *pb.Snapshot_Session, s *Session) = s.Channels != nil && s.invitedTo != nil && (forall ch lcChan :: ch in s.Channels <==> (exists j int :: 0 <= j && j < len(p.Channels) && ChanToLower(p.Channels[j]) == ch)) && (forall ch lcChan :: ch in s.invitedTo <==> (exists j int :: 0 <= j && j < len(p.InvitedTo) && ChanToLower(p.InvitedTo[j]) == ch))
 //@ pred snapId(p *pb.Snapshot_Session) = mk("robust.Id", p.Id.Id, p.Id.Reply)
 //@ pred modesOK(p *pb.Snapshot_Session) = allocated(p.Modes) && forall j int :: 0 <= j && j < len(p.Modes) ==> len(p.Modes[j]) > 0 && p.Modes[j][0] < 122
 //@ pred sessEntryOK(p *pb.Snapshot_Session, i *IRCServer) = modesOK(p) && p != nil && allocated(p) && p.Id != nil && p.IrcPrefix != nil && allocated(p.Id) && allocated(p.IrcPrefix) && allocated(p.LastActivity) && allocated(p.LastNonPing) && allocated(p.LastSolvedCaptcha) && snapId(p) in i.sessions && sessRepr(p, i.sessions[snapId(p)]) && modesRepr(p, i.sessions[snapId(p)])
@@ -1029,6 +1031,7 @@ package ircserver
 //@     invariant sessin-only: forall x robust.Id :: x in i.sessions ==> (exists k int :: 0 <= k && k <= rangeindex && snapId(snapshot.Sessions[k]) == x)
 //@     invariant sessrepr: forall k int :: 0 <= k && k <= rangeindex ==> sessRepr(snapshot.Sessions[k], i.sessions[snapId(snapshot.Sessions[k])])
 //@     invariant modes: forall k int :: 0 <= k && k <= rangeindex ==> modesRepr(snapshot.Sessions[k], i.sessions[snapId(snapshot.Sessions[k])])
+//@     invariant chans: forall k int :: 0 <= k && k <= rangeindex ==> chansRepr(snapshot.Sessions[k], i.sessions[snapId(snapshot.Sessions[k])]) && allocated(i.sessions[snapId(snapshot.Sessions[k])].Channels) && allocated(i.sessions[snapId(snapshot.Sessions[k])].invitedTo)
 // group nicks: the nickname index is rebuilt, not stored
 //@     invariant nicks: wfNicksLoaded(i)
 //@     invariant nicks-owner: forall k int :: 0 <= k && k <= rangeindex && snapshot.Sessions[k].Nick != "" ==> NickToLower(snapshot.Sessions[k].Nick) in i.nicks && i.nicks[NickToLower(snapshot.Sessions[k].Nick)] == i.sessions[snapId(snapshot.Sessions[k])]
@@ -1040,6 +1043,13 @@ package ircserver
 //@   assert@store i.serverSessions#0 : services-new: len(callarg0) == len(i.serverSessions) + 1 && callarg0[len(i.serverSessions)] == s.Id.Id && s.Server && s == snapshot.Sessions[rangeindex+1]
 //@   assert@store i.serverSessions#0 : services-kept: forall k int :: 0 <= k && k <= rangeindex && snapshot.Sessions[k].Server ==> (exists j int :: 0 <= j && j < len(callarg0) && callarg0[j] == snapshot.Sessions[k].Id.Id)
 //@   assert@if newSession.Nick != ""#0 : services-merged: forall k int :: 0 <= k && k <= rangeindex + 1 && snapshot.Sessions[k].Server ==> (exists j int :: 0 <= j && j < len(i.serverSessions) && i.serverSessions[j] == snapshot.Sessions[k].Id.Id)
+// group chans: memberships and invitations become sets of lowered names (reader side only: the
+// matching obligation for Marshal is not discharged, see DESIGN.md)
+//@   loop range s.Channels
+//@     invariant chans: 0 - 1 <= rangeindex && rangeindex < len(s.Channels) && channels != nil && allocated(channels) && (forall ch lcChan :: ch in channels <==> (exists j int :: 0 <= j && j <= rangeindex && ChanToLower(s.Channels[j]) == ch))
+//@   loop range s.InvitedTo
+//@     invariant chans: 0 - 1 <= rangeindex && rangeindex < len(s.InvitedTo) && invitedTo != nil && allocated(invitedTo) && channels != nil && allocated(channels) && invitedTo != channels && (forall ch lcChan :: ch in invitedTo <==> (exists j int :: 0 <= j && j <= rangeindex && ChanToLower(s.InvitedTo[j]) == ch)) && (forall ch lcChan :: ch in channels <==> (exists j int :: 0 <= j && j < len(s.Channels) && ChanToLower(s.Channels[j]) == ch))
+//@   assert@mapupdate i.sessions#0 : chans-built: chansRepr(s, newSession) && allocated(newSession.Channels) && allocated(newSession.invitedTo)
 // group modes: user modes are decoded letter by letter
 //@   loop range s.Modes
 //@     invariant modes: 0 - 1 <= rangeindex && rangeindex < len(s.Modes) && forall m int :: 0 <= m && m < 122 ==> (modes[m] <==> (exists j int :: 0 <= j && j <= rangeindex && s.Modes[j][0] == m))
@@ -1070,6 +1080,7 @@ package ircserver
 //@   assert@return snapshot.LastIncludedIndex, nil#0 : sessin-only: forall x robust.Id :: x in i.sessions ==> (exists k int :: 0 <= k && k < len(snapshot.Sessions) && snapId(snapshot.Sessions[k]) == x)
 //@   assert@return snapshot.LastIncludedIndex, nil#0 : sessrepr: forall k int :: 0 <= k && k < len(snapshot.Sessions) ==> sessRepr(snapshot.Sessions[k], i.sessions[snapId(snapshot.Sessions[k])])
 //@   assert@return snapshot.LastIncludedIndex, nil#0 : modes: forall k int :: 0 <= k && k < len(snapshot.Sessions) ==> modesRepr(snapshot.Sessions[k], i.sessions[snapId(snapshot.Sessions[k])])
+//@   assert@return snapshot.LastIncludedIndex, nil#0 : chans: forall k int :: 0 <= k && k < len(snapshot.Sessions) ==> chansRepr(snapshot.Sessions[k], i.sessions[snapId(snapshot.Sessions[k])])
 //@   assert@return snapshot.LastIncludedIndex, nil#0 : nicks: wfNicksLoaded(i)
 //@   assert@return snapshot.LastIncludedIndex, nil#0 : nicks-owner: forall x robust.Id :: x in i.sessions && i.sessions[x].Nick != "" ==> NickToLower(i.sessions[x].Nick) in i.nicks && i.nicks[NickToLower(i.sessions[x].Nick)] == i.sessions[x]
 //@   assert@return snapshot.LastIncludedIndex, nil#0 : services: forall x robust.Id :: x in i.sessions && i.sessions[x].Server ==> (exists j int :: 0 <= j && j < len(i.serverSessions) && i.serverSessions[j] == x.Id)
